@@ -593,7 +593,8 @@ where
     /// ```
     pub async fn blobs_count(&self) -> usize {
         let safe = self.inner.safe.read().await;
-        let count = safe.blobs.read().await.len();
+        // `len()` also counts the empty slots left by `try_restore_active_blob`
+        let count = safe.blobs.read().await.iter().count();
         if safe.active_blob.is_some() {
             count + 1
         } else {
